@@ -336,6 +336,39 @@ fn c04_iterate(iter_seed: u64, rep: &mut ShardReport, deadline: Instant) {
                 let persistent = mode == FaultMode::Persistent;
                 let mut plan = FaultPlan::default();
                 plan.faults.insert(key.clone(), mode.clone());
+                // a third of the persistent plans carry a second faulty key: a stale attempt may
+                // then fail on a *different* key than in-order execution does, and the error
+                // reported must still be the in-order one (payload included)
+                let mut second: Option<Key> = None;
+                if persistent && keys.len() > 1 && ir.chance(1, 2) {
+                    // pair a key only stale attempts read with one the in-order run reads (and the
+                    // other way round) whenever the block offers both kinds
+                    let opposite: Vec<&Key> = keys.iter().filter(|k| touched[*k] != touched[key]).collect();
+                    let other = if !opposite.is_empty() && ir.chance(3, 4) { (*ir.pick(&opposite)).clone() } else { ir.pick(&keys).clone() };
+                    if other != *key {
+                        plan.faults.insert(other.clone(), FaultMode::Persistent);
+                        if !touched[&other] {
+                            plan.latency_us.insert(other.clone(), *ir.pick(&[500u64, 2000]));
+                        }
+                        second = Some(other);
+                        rep.bump("runs_with_two_faulty_keys", 1);
+                    }
+                } else if persistent && !touched[key] && ir.chance(1, 2) {
+                    // "every stale attempt fails": all keys only speculative attempts read are
+                    // faulty, plus one key the in-order run reads. In order only that last one can
+                    // be hit, and it alone may be reported - with its own payload - whatever the
+                    // stale attempts of the same transaction ran into before.
+                    for k in stale_only.iter() {
+                        plan.faults.insert(k.clone(), FaultMode::Persistent);
+                    }
+                    let in_order: Vec<&Key> = touched.iter().filter(|(_, o)| **o).map(|(k, _)| k).collect();
+                    if !in_order.is_empty() {
+                        let a = (*ir.pick(&in_order)).clone();
+                        plan.faults.insert(a.clone(), FaultMode::Persistent);
+                        second = Some(a);
+                    }
+                    rep.bump("runs_with_all_stale_only_keys_faulty", 1);
+                }
                 // slow some keys so attempts start speculatively and finish late
                 if !touched[key] {
                     // a key only stale attempts read: keep the reader busy long enough for its
@@ -366,7 +399,13 @@ fn c04_iterate(iter_seed: u64, rep: &mut ShardReport, deadline: Instant) {
                 let (mut tv, stats) = trace_violations(&case, None, &out);
                 let _ = step_ref;
                 if out.stall.is_none() && out.panic.is_none() {
-                    violations.extend(judge(&case, &rc, key, persistent, &clean_r, &with_pre, &without_pre, &out));
+                    // with two faulty keys the known-finding classifiers look at the key the error names
+                    let judged_key = match &out.result {
+                        Err((_, sig)) => plan.faults.keys().find(|k| sig.ends_with(&k.short())).unwrap_or(key),
+                        _ => key,
+                    };
+                    let _ = &second;
+                    violations.extend(judge(&case, &rc, judged_key, persistent, &clean_r, &with_pre, &without_pre, &out));
                     violations.append(&mut tv);
                 }
                 let fired = out.faults_fired > 0;
@@ -405,6 +444,7 @@ impl crate::campaign::Campaign for C05 {
 fn c05_iterate(iter_seed: u64, rep: &mut ShardReport) {
     use crate::progs::Mix;
     let fams: Vec<(u32, GenParams)> = vec![
+        (4, crate::props::withdraw_family()),
         (
             5,
             GenParams {
